@@ -112,6 +112,53 @@ theorem clientLoop_sound (mech : Mech) (peer : List CEv) : ∀ (hist : List Byte
     | otherNs => simp [clientLoop, fail] at h
     | space => simp [clientLoop, fail] at h
 
+/-- in a hostile environment, a loop that ends authenticated behaved exactly like the loop
+on a healthy connection with a live context -/
+theorem clientLoopE_eq (mech : Mech) (peer : List CEv) : ∀ (env : CEnv) (i : Nat) (hist : List Bytes),
+    (clientLoopE mech env i hist peer).authn = true →
+    clientLoopE mech env i hist peer = clientLoop mech hist peer := by
+  induction peer with
+  | nil =>
+    intro env i hist h
+    unfold clientLoopE at h
+    split at h <;> simp [fail] at h
+  | cons ev rest ih =>
+    intro env i hist h
+    unfold clientLoopE at h ⊢
+    by_cases hc : env.cancelled i = true
+    · simp [hc, fail] at h
+    · simp only [hc, Bool.false_eq_true, if_false] at h ⊢
+      cases ev with
+      | challenge p =>
+        cases hp : p.decodeClient with
+        | none => simp [hp, fail] at h
+        | some c =>
+          simp only [hp] at h ⊢
+          cases hk : (mech (hist ++ [c])).kind with
+          | more =>
+            simp only [hk] at h ⊢
+            by_cases hw : env.canWrite = true
+            · simp only [hw, if_true, CRes.after_authn] at h ⊢
+              rw [ih env.wrote (i + 1) (hist ++ [c]) h]
+              simp [clientLoop, hp, hk]
+            · simp [hw, fail] at h
+          | done =>
+            simp only [hk] at h ⊢
+            by_cases hw : env.canWrite = true
+            · simp [hw, clientLoop, hp, hk]
+            · simp [hw, fail] at h
+          | authnErr => simp [hk, fail] at h
+          | otherErr => simp [hk, fail] at h
+      | success p =>
+        cases hp : p.decodeClient with
+        | none => simp [hp, fail] at h
+        | some c =>
+          cases hk : (mech (hist ++ [c])).kind <;> simp [clientLoop, hp, hk, fail] at h ⊢
+      | failure => simp [fail] at h
+      | other => simp [fail] at h
+      | otherNs => simp [fail] at h
+      | space => simp [fail] at h
+
 /-! ### receiving side -/
 
 theorem SRes.after_authn (r : SRes) (s : List SSent) (p : List PermCall) : (r.after s p).authn = r.authn := rfl
